@@ -120,6 +120,12 @@ UNITS["C16"] = [
          harnesses=[dict(name="add_member_contract", bound="<=2 existing members, ids/addrs over 4 values, ts/cluster full u64/u16; inductive step from an arbitrary state")],
          trusted=["same stand-ins as unit c18_members"],
          assumptions=["the member table's cluster id is what the sync-candidate and broadcast-target filters read: a newer identity's cluster must replace the old one"]),
+    dict(kind="verus", name="c16_uni_stream", template="specs/c16_uni_stream.vrs",
+         under_contract=["frag_uni_stream"], vacuity=["frag_uni_stream"],
+         trusted=["Framed::next_frame (FramedRead<RecvStream, LengthDelimitedCodec> + StreamExt::next: yields the stream's frames in order, one per call)",
+                  "UniPayload::read_from_buffer (speedy derived codec: a function of the frame bytes)"],
+         assumptions=["fragment = from `let mut changes = vec![]` to the end of the receive loop of the spawned per-stream task; `.await` on next() dropped, tracing/metrics macros dropped",
+                      "what happens to `changes` after the loop (process_multiple_changes) is the ingest path covered by C10/C03 units"]),
     dict(kind="verus", name="c16_cluster", template="specs/c16_cluster.vrs",
          under_contract=["frag_uni_dispatch", "frag_serve_sync_prologue", "frag_sync_candidate", "frag_broadcast_target"], vacuity=["frag_uni_dispatch", "frag_serve_sync_prologue", "frag_sync_candidate", "frag_broadcast_target"],
          assumptions=["fragments wrapped as functions (continue -> return Exit::Continue; return Ok(0) -> Returned(0)); `.instrument(..).await` dropped from the one awaited call, whose effect is a ghost log of written messages",
